@@ -8,13 +8,16 @@ import PhyVerif.Spec.C04b
 import PhyVerif.Lemmas.C04c
 import PhyVerif.Lemmas.C04d
 import PhyVerif.Lemmas.C04e
+import PhyVerif.Model.C04f
+import PhyVerif.Lemmas.C04f
 /-!
 # C04 — loading a dataset reproduces its files under every supported layout
 Only property theorems + non-vacuity examples; proofs in `Lemmas/C04*.lean`.
 
 * `Model/C04.lean` `load`: the array files (`_load_data` up to the similarity matrix);
   `Model/C04c.lean` `loadFull`: the rest (numeric samples/times, shape assertions, positions,
-  concrete defaults, extra per-spike attributes, raw traces through the C01/C02 reader models, duration).
+  concrete defaults, extra per-spike attributes, raw traces through the C01/C02 reader models, duration);
+  `Model/C04f.lean` `loadFeatures`, `loadTemplateFeatures`: the feature tables.
 * `Spec/C04.lean`, `Spec/C04b.lean`: the declarative table of DESIGN §5 C04 (which file wins, which
   transform, which default), written without `findPath`/`readFile`/`load`.
 * `load_values` … `load_duration` below: every successful load satisfies the table, attribute by
@@ -283,6 +286,52 @@ theorem load_duration (h : loadFull inv rate tden ncd one raw d = .ok (fv, d')) 
 
 end Full
 
+/-! ## Feature tables (`_load_features`, `_load_template_features`) -/
+
+/-- exchanging the last two axes: entry `(i, k, j)` of the shown array is entry `(i, j, k)` of the
+stored one (C order; the stored array has `n · p · q` cells) -/
+theorem transpose021_spec (a : Arr) (n p q : Nat) (hs : a.shape = [n, p, q]) (hl : a.data.length = n * (p * q)) :
+    (transpose021 a).shape = [n, q, p] ∧ (transpose021 a).data.length = n * (q * p) ∧
+    ∀ i j k, i < n → j < p → k < q →
+      (transpose021 a).data[i * (q * p) + (k * p + j)]? = a.data[i * (p * q) + (j * q + k)]? :=
+  Lemmas.transpose021_spec a n p q hs hl
+
+/-- Principal-component features: shown iff `pc_features.npy` exists; the data are the stored array
+(squeezed, NOT scrubbed — it is memory-mapped) with its last two axes exchanged; the column table is
+`pc_feature_ind.npy` (not scrubbed either) of shape `(nt, nloc)` or absent (dense), the row table
+`pc_feature_spike_ids.npy` (scrubbed) of one entry per stored row or absent (all spikes). -/
+theorem load_features (d : Dir) (nt : Nat) (s : Sparse) (h : loadFeatures d nt = .ok (some s)) :
+    ∃ a, d.lookup "pc_features.npy" = some a ∧ (feat3 a).shape.length = 3 ∧
+      s.data = transpose021 (feat3 a) ∧
+      Row d ["pc_feature_ind.npy"] featCols s.cols ∧
+      (∀ c, s.cols = some c → c.shape = [nt, (s.data.shape.drop 1).headD 0]) ∧
+      Row d ["pc_feature_spike_ids.npy"] (fun r => squeeze (scrub r)) s.rows ∧
+      (∀ r, s.rows = some r → r.shape = [s.data.shape.headD 0]) :=
+  Lemmas.loadFeatures_some d nt s h
+
+/-- … and no features are shown only when the file is absent -/
+theorem load_features_absent (d : Dir) (nt : Nat) (h : loadFeatures d nt = .ok none) :
+    "pc_features.npy" ∉ names d :=
+  Lemmas.loadFeatures_none d nt h
+
+/-- Template features: `template_features.npy` squeezed (memory-mapped, not scrubbed), 2-D, with the
+optional tables `template_feature_ind.npy` `(nt, nloc)` and `template_feature_spike_ids.npy`. -/
+theorem load_template_features (d : Dir) (nt : Nat) (s : Sparse) (h : loadTemplateFeatures d nt = .ok (some s)) :
+    ∃ a, d.lookup "template_features.npy" = some a ∧ (squeeze a).shape.length = 2 ∧
+      s.data = squeeze a ∧
+      Row d ["template_feature_ind.npy"] (fun c => squeeze (scrub c)) s.cols ∧
+      (∀ c, s.cols = some c → c.shape = [nt, (s.data.shape.drop 1).headD 0]) ∧
+      Row d ["template_feature_spike_ids.npy"] (fun r => squeeze (scrub r)) s.rows ∧
+      (∀ r, s.rows = some r → r.shape = [s.data.shape.headD 0]) :=
+  Lemmas.loadTemplateFeatures_some d nt s h
+
+/-- the files created while loading do not change what the feature tables are read from: any
+literal name other than the two created ones reads the same in `d'` as in `d` -/
+theorem features_frame (inv : Arr → Arr) (d : Dir) (v : View) (d' : Dir) (h : load inv d = .ok (v, d'))
+    (name : String) (hn : ∀ g ∈ Lemmas.createdNames, globMatch name g = false) :
+    readFile d' [name] = readFile d [name] :=
+  Lemmas.readFile_features_frame inv d v d' h name hn
+
 /-! Non-vacuity -/
 example :
     let d : Dir := [("spike_times.npy", ⟨[3, 1], [.num 1, .num 4, .num 4]⟩), ("spike_templates.npy", ⟨[3], [.num 0, .num 1, .num 0]⟩),
@@ -366,5 +415,17 @@ example : C01.InDom exRaw.flatten.length (.slice (some 1) none) := by
 /-- a 0-d extra attribute makes the load fail (real code: IndexError) -/
 example : (match loadSpikeAttributes 3 [("spike_x.npy", ⟨[1], [.num 5]⟩)] with
     | .error (.scalarAttr f) => f | _ => "") = "spike_x.npy" := by decide
+
+example : transpose021 ⟨[1, 2, 3], [.num 0, .num 1, .num 2, .num 3, .num 4, .num 5]⟩ =
+    ⟨[1, 3, 2], [.num 0, .num 3, .num 1, .num 4, .num 2, .num 5]⟩ := by decide
+example :
+    (match loadFeatures [("pc_features.npy", ⟨[2, 2, 3], [.num 0, .nan, .num 2, .num 3, .num 4, .num 5,
+                                                          .num 6, .num 7, .num 8, .num 9, .inf, .num 11]⟩),
+                         ("pc_feature_ind.npy", ⟨[2, 3], [.num 0, .num 1, .num 2, .num 2, .num 1, .num 0]⟩),
+                         ("pc_feature_spike_ids.npy", ⟨[2, 1], [.num 4, .num 9]⟩)] 2 with
+     | .ok (some s) => some (s.data, s.cols.map (·.shape), s.rows)
+     | _ => none) =
+    some (⟨[2, 3, 2], [.num 0, .num 3, .nan, .num 4, .num 2, .num 5, .num 6, .num 9, .num 7, .inf, .num 8, .num 11]⟩,
+          some [2, 3], some ⟨[2], [.num 4, .num 9]⟩) := by decide
 
 end PhyVerif.C04
